@@ -634,6 +634,14 @@ def flex_writers(F, R):
     ok = len(g) == 1 and ie and body.edge_dominates((g[0][0], g[0][3]), ie[0][0]) and \
         [r for _, r in ret_stores(body, body.reachable_from(g[0][2], avoid=[g[0][3]]))] == ["Err{Error{InsufficientSize{}, %pos}}"]
     R.ob("K1.errkind", fn, "no-room", bool(ok), "%s: no room for another slot is InsufficientSize, checked before anything is written" % fn, where=b["span"])
+    # the read-only walk ends at the open (L::MAX) item: behind it lies the free tail, whose bytes are not part of the value (a slot read
+    # there would make push depend on leftovers of refused operations)
+    seal_bbs_ = [bb_ for bb_, i_, s_ in body.assigns() if not s_["l"]["p"] and body.local_name(s_["l"]["v"]) == "seal"
+                 and ab(canon(body.expr_of_rvalue(s_["r"]))).startswith("Some{")]
+    reads_ = [bb_ for bb_, t_ in find_calls(body, "FlatValidate::from_bytes") if t_["call"]["args"] == ["L"]]
+    ok_w = len(seal_bbs_) == 1 and len(reads_) == 1 and reads_[0] not in body.reachable_from(seal_bbs_[0])
+    R.ob("P5.push-walk-ends", fn, "open-item", ok_w,
+         "%s: after the open last item was measured no further offset slot is read (the walk never enters the free tail)" % fn, where=b["span"])
     # sealed extent formula + guard
     seal_formula(F, R, b, body, fn)
     # ---- FromIterator
@@ -716,6 +724,15 @@ def flex_writers(F, R):
     R.ob("P6.fromiter-window", fn, "range", ok_w,
          "%s: items are laid out inside the bytes of the view made from the slice (length floored to the vector's ALIGN), not the raw slice%s" % (
              fn, "" if ok_w else " -- found %s" % sorted(inits)), where=b["span"])
+    # per-item room gate: exactly `len(data) < OFFSET_SIZE` is refused (InsufficientSize at the item's position) before the slot is split off;
+    # `<=` would refuse an item that needs no payload bytes, a weaker test lets split_at_mut panic when 0 < len < OFFSET_SIZE
+    g_ = [(x, n_, tt, ff) for x, n_, tt, ff in switch_facts(body) if n_ == ("Lt", "slice::len(%data)", "OFFSET_SIZE")]
+    sp_ = [bb_ for bb_, t_ in find_calls(body, "split_at_mut") if ab(canon(body.expr_of_call(t_, 0, bb_))) == "slice::split_at_mut(%data, OFFSET_SIZE)"]
+    ok_g = len(g_) == 1 and len(sp_) == 1 and body.edge_dominates((g_[0][0], g_[0][3]), sp_[0]) and \
+        [r for _, r in ret_stores(body, body.reachable_from(g_[0][2], avoid=[g_[0][3]]))] == ["Err{Error{InsufficientSize{}, %pos}}"]
+    R.ob("K1.fromiter-room", fn, "slot-gate", bool(ok_g),
+         "%s: an item is refused (InsufficientSize at its position) exactly when fewer than OFFSET_SIZE bytes are left, and the slot is split off only behind that test" % fn,
+         where=b["span"])
     R.ob("R3.mark-then-seal", fn, "order", not bad and len(ss) == 3,
          "%s: the newest item is marked as last and its predecessor sealed back to back (no fallible step in between)" % fn, where=b["span"])
     seal_formula(F, R, b, body, fn)
